@@ -575,6 +575,27 @@ func (rn *runner) streamTransLog(g *gen) {
 			if x.Coeff.Sign() == 0 {
 				x = decFromBig(big.NewInt(3), 0, false)
 			}
+			if g.r.Intn(10) == 0 {
+				// a root (purely fractional exponent) of an operand with a huge or tiny exponent, in a context wide
+				// enough to hold the result: frac(y)*ln|x| then has up to five integer digits, which the working
+				// precision must cover (a perfect square / cube / fourth power half of the time: exact results)
+				c.MaxExponent, c.MinExponent = 100000, -100000
+				e := int64(g.pick(4000, 9000, 9000, 19000, 19000, 38000))
+				if g.r.Intn(2) == 0 {
+					e = -e
+				}
+				root := int64(g.pick(2, 2, 4, 5, 8, 10))
+				m := g.coeff(1 + g.r.Intn(p+1))
+				if m.Sign() == 0 {
+					m = big.NewInt(95)
+				}
+				if g.r.Intn(2) == 0 && root <= 4 {
+					m = new(big.Int).Exp(m, big.NewInt(root), nil)
+				}
+				x = decFromBig(m, e-e%root, false)
+				// 1/2, 1/4, 1/5, 1/8, 1/10 are exact decimals
+				y = decFromBig(big.NewInt(map[int64]int64{2: 5, 4: 25, 5: 2, 8: 125, 10: 1}[root]), map[int64]int64{2: -1, 4: -2, 5: -1, 8: -3, 10: -1}[root], g.r.Intn(3) == 0)
+			}
 		}
 		rn.ctxCase(op, c, x, y, 0)
 	}
